@@ -55,6 +55,8 @@ func init() {
 				{Dir: "netutil", Func: "VerifC04AcceptsV6", Opts: o},
 				{Dir: "netutil", Func: "VerifC04AcceptsV4V6Text", Opts: o, NoCoverCheck: true},
 				{Dir: "netutil", Func: "VerifC04Short", Opts: o},
+				{Dir: "netutil", Func: "VerifC04V6Separators", Opts: o},
+				{Dir: "netutil", Func: "VerifC04UnicodeRoot", Opts: o, NoCoverCheck: true},
 			}
 			return append(hs, modelHarnesses...)
 		},
@@ -65,13 +67,15 @@ func init() {
 			}
 			return map[string]string{
 				"round trip":          "none on the address: all 2^32 IPv4 (4-byte and IPv4-mapped 16-byte net.IP) and all 2^128 IPv6 addresses; IPv4 names in every letter-case combination (one symbolic flag per letter), IPv6 names all-lower, all-upper and each single letter position upper; with and without one trailing dot",
-				"accepted language v4": "X ++ '.in-addr.arpa' (every case of the root, optional dot), X any ASCII string of length 0.." + x + " without 'xn--' label",
+				"accepted language v4": "X ++ j ++ 'in-addr.arpa' (every case of the root, optional dot), X any ASCII string of length 0.." + x + " without 'xn--' label, j any ASCII byte (for empty X also absent)",
+				"accepted language v6, separators": "72-byte shape with fixed hex nibbles; one of the 32 separators is an arbitrary ASCII byte and both neighbour nibbles are arbitrary ASCII bytes",
+				"non-ASCII root":        "a complete in-addr.arpa / ip6.arpa name in which one byte of the root is replaced by an arbitrary two-byte UTF-8 rune (thorough: or a three-byte rune U+1000..U+CFFF), through the real idna, strings.ToLower and unicode tables",
 				"accepted language, IPv6 text before in-addr.arpa": "optional leading '::', 0..2 hex fields of width 1 or 4 (all digits symbolic, any case), optional '::', a dotted quad of symbolic digits, '.in-addr.arpa' in every case, optional dot",
 				"accepted language v6": "32 arbitrary ASCII bytes (not '.', not 'x') at the nibble positions of the 72-byte shape, " + sep + ", root in every letter case, optional dot",
 				"short strings":        "every ASCII string of length 0.." + sh,
 			}
 		},
-		Outside:     []string{"names with non-ASCII bytes (Unicode case folding in strings.ToLower after ASCII-only validation: the known 'İn-addr.arpa' class lies here)", "IPv6 names with more than one displaced separator", "IPv6 round-trip names with several but not all letters in upper case"},
+		Outside:     []string{"names with non-ASCII bytes elsewhere than one rune in the root", "IPv6 names with more than one displaced separator", "IPv6 round-trip names with several but not all letters in upper case"},
 		Assumptions: []string{"canonical names c04Canon4/c04Canon16 written from RFC 1035 s3.5 / RFC 3596 s2.5"},
 		Stubs:       append([]string{"fmt.* (texts opaque)", "unique.Make (interning)"}, modelStubs...),
 		Technique:   "SSA->SMT bounded symbolic execution; encoder/decoder round trip over fully symbolic address bits; accepted-language harness asserting canonicity of every accepted name",
